@@ -29,7 +29,7 @@ tree('T2', [Opt('sec', 'm', 'M', sub=[Opt('int', 'x', '', 1), Opt('sec', 'n', 'M
             Opt('sec', 'e', 'M', sub=[Opt('int', 'x', '', 1)])],
      b'm { x = 10 n { y = 100 } n { y = 101 } } m { x = 11 } m { x = 12 n { y = 120 } }')
 tree('T3', [Opt('sec', 'mt', 'MT', sub=[Opt('int', 'x', '', 1), Opt('int', 'l', 'L', [b'1'])]), Opt('int', 'i', '', 5)],
-     b'mt a { x = 1 } mt "b c" { x = 2 } mt "it\'s" { x = 3 } mt "x|y" { x = 4 } mt "q\\\\z" { x = 5 } mt 7 { x = 6 } mt "=" { x = 7 } mt "\'q" { x = 8 }')
+     b'mt a { x = 1 } mt "b c" { x = 2 } mt "it\'s" { x = 3 } mt "x|y" { x = 4 } mt "q\\\\z" { x = 5 } mt 7 { x = 6 } mt "=" { x = 7 } mt "\'q" { x = 8 } mt "" { x = 9 }')
 tree('T4', [Opt('sec', 's', '', sub=[Opt('sec', 'mt', 'MT', sub=[Opt('sec', 'm', 'M', sub=[Opt('int', 'z', '', 1)]), Opt('int', 'x', '', 2)])])],
      b's { mt a { m { z = 1 } m { z = 2 } x = 9 } mt b { x = 8 } }')
 tree('T5', [Opt('sec', 'Sec', '', sub=[Opt('int', 'Xa', '', 1)]), Opt('sec', 'mm', 'M', sub=[Opt('int', 'x', '', 1)]), Opt('int', 'i', '', 5)],
@@ -102,7 +102,7 @@ def defects(path):
         e = path.find(b'|', k)
         e = len(path) if e < 0 else e
         q = path[k + 1:e]
-        for repl in (b'-1', b'99', b'1x', b'4294967296', b'zz', b'', b"'zz'", b"'" + q, q + b"'", b"'a\\qb'", b"''"):
+        for repl in (b'-1', b'99', b'1x', b'4294967296', b'zz', b'', b"'zz'", b"'" + q, q + b"'", b"'a\\qb'", b"''", b"'\\''", b"'\\\\'"):
             out.add(path[:k + 1] + repl + path[e:])
         out.add(path[:k] + path[e:])                # qualifier removed
     # a qualifier on every unqualified step
